@@ -521,7 +521,7 @@ func (l *Linter) withFileInclusion(
 		l.including = l.including[:len(l.including)-1]
 	}()
 
-	module, err := ctx.Restore().Resolver().Resolve(include)
+	module, err := ctx.Resolver().Resolve(include)
 	if err != nil {
 		e := &LintError{
 			Severity: ERROR,
